@@ -55,6 +55,7 @@ static bool nontrivial(const gc::LibSpec& s, uint64_t max_points) {
         if ((e.kind == gc::LABEL || e.kind == gc::REFERENCE) && (e.rot != 0 || e.mag != 0 || e.refl != 0)) return true;
         if (e.props == 3) return true;
         if (e.xf != 0 || e.off != 0) return true;
+        if (e.kind != gc::POLYGON && e.n > 8190 / 4) return true;  // centre line split over several XY records
     }
     return false;
 }
